@@ -18,11 +18,17 @@ VARIABLES l, sl, pos
 vars == <<l, sl, pos>>
 seq == IF sl = 0 THEN <<>> ELSE Trace[sl].seq
 
-IsMove(e) == e.op \notin {"NewIter", "EndIter"}
+IsMove(e) == e.op \notin {"NewIter", "EndIter", "Modified"}
+\* A "Modified" event: the container was modified while the iterator was kept; the event carries the container's NEW
+\* sequence.  Where the kept iterator stands then is not specified (pos = Stale) until it is rewound by one of the
+\* absolute jumps Begin / End / First / Last - from which on it is a cursor over the new sequence.  (The library's own
+\* tests create iterators on empty containers, fill the containers and rewind.)
+Stale == -7
+Absolute(op) == op \in {"Begin", "End", "First", "Last"}
 
 C08(e) ==
   /\ Completed(e)
-  /\ IsMove(e) =>
+  /\ (IsMove(e) /\ (pos # Stale \/ Absolute(e.op))) =>
        LET q == Move(seq, pos, e.op, e.p) IN
        /\ Returns(e.op) => e.ret = Inside(seq, q)
        \* the harness reads Index()/Key()/Value() only after a successful move, and not after every one (e.has)
@@ -42,7 +48,8 @@ Step ==
      /\ IF Obl(Prop, e) = TRUE THEN TRUE ELSE PrintT("REJECT|" \o ToString(l))
      /\ IF e.op = "NewIter" THEN sl' = l /\ pos' = e.at           \* -1, or the position IteratorAt(node) starts on
         ELSE IF e.op = "EndIter" THEN UNCHANGED <<sl, pos>>
-        ELSE sl' = sl /\ pos' = Move(seq, pos, e.op, e.p)
+        ELSE IF e.op = "Modified" THEN sl' = l /\ pos' = Stale
+        ELSE sl' = sl /\ pos' = (IF pos = Stale /\ ~Absolute(e.op) THEN Stale ELSE Move(seq, pos, e.op, e.p))
   /\ l' = l + 1
 Spec == Init /\ [][Step]_vars
 Accepted == TLCGet("stats").diameter - 1 = Len(Trace)
